@@ -82,6 +82,17 @@
 (* Spell(rt), built by TLC; what must arrive is that very spelling.        *)
 (* preload (when present) says how the provider reads the file.            *)
 (*                                                                         *)
+(* http2 gun (components/guns/http/http.go NewHTTP2Gun): gun = "http2",    *)
+(* always over TLS.  h2 (when present) says whether the TLS target offers  *)
+(* HTTP/2 next to HTTP/1.1.  Against such a target the http2 gun's request *)
+(* arrives as HTTP/2.0 and is otherwise Wire(c) of the http gun (:path =   *)
+(* uri, :authority = Host, the same header rule and framing); the http and *)
+(* connect guns stay on HTTP/1.1 whatever the target offers (they offer    *)
+(* http/1.1 only).  Against a target that does not speak h2 the http2 gun  *)
+(* delivers NOTHING - it never falls back to HTTP/1.1 silently: the shot   *)
+(* panics ("Will panic and cancel shooting", http.go) and reports at most  *)
+(* one sample.  Negative control "h2_fallback".                            *)
+(*                                                                         *)
 (* Multi-entry files: a file case f = [kind "file", fmt, ssl, preload,     *)
 (* opts, entries <<[hl, uri, body]>>]; hl are the header lines written     *)
 (* before the entry.  In uri/uripost files `[Name: value]` / `[Host: h]`   *)
@@ -106,6 +117,7 @@ CONSTANTS Formats,      \* subset of {"uri", "uripost", "raw", "json"}
           MWNames,      \* header/date middleware: header names explored ("" = the default, Date); {} = none
           SideFilters,  \* answlog filters explored with httptrace on/off ({} = no side-channel cases)
           ConnectModes, \* connect gun: values of connect-ssl explored ({} = no connect cases)
+          H2Modes,      \* http2 gun / h2-capable target: subset of BOOLEAN = what the target offers ({} = no such cases)
           SSLModes,     \* subset of BOOLEAN
           CompressModes,\* subset of BOOLEAN (TRUE is explored in the side space only)
           Variant
@@ -190,6 +202,21 @@ Cases == UNION { { Case(f, s, FALSE, m, u, h, eh, oh, b) :
                  { Case(f, s, FALSE, mb[1], Spell(t), FALSE, <<>>, <<>>, mb[2]) @@ [rt |-> t, preload |-> p]
                      @@ [gun |-> "connect", cssl |-> z, cstatus |-> 200] :
                      t \in Targets, mb \in TargetMB(f), s \in SSLModes, p \in BOOLEAN, z \in ConnectModes \cap {FALSE} }
+                 \cup
+                 \* the http2 gun against a TLS target that offers h2 (h2 = TRUE: the request arrives as HTTP/2.0) or only
+                 \* HTTP/1.1 (h2 = FALSE: nothing arrives, the shot panics), without any / with all entry and option headers
+                 { Case(f, TRUE, FALSE, m, u, h, ho[1], ho[2], b) @@ [gun |-> "http2", h2 |-> x] :
+                     m \in MethodsOf(f), b \in BodiesOf(f), u \in URIs, h \in BOOLEAN, x \in H2Modes,
+                     ho \in {<< <<>>, <<>> >>, <<EntryHdrs, OptHdrs>>} }
+                 \cup
+                 \* ... request-targets in a spelling of their own through the http2 gun (:path)
+                 { Case(f, TRUE, FALSE, mb[1], Spell(t), FALSE, <<>>, <<>>, mb[2]) @@ [rt |-> t, preload |-> FALSE]
+                     @@ [gun |-> "http2", h2 |-> TRUE] : t \in Targets, mb \in TargetMB(f), x \in H2Modes \cap {TRUE} }
+                 \cup
+                 \* ... and the http gun against the target that offers h2 as well: it stays on HTTP/1.1
+                 { Case(f, TRUE, FALSE, m, "/", h, ho[1], ho[2], b) @@ [h2 |-> TRUE] :
+                     m \in MethodsOf(f), b \in BodiesOf(f), h \in BOOLEAN, x \in H2Modes \cap {TRUE},
+                     ho \in {<< <<>>, <<>> >>, <<EntryHdrs, OptHdrs>>} }
                  \cup
                  \* the connect gun: same entry through a CONNECT tunnel, without any / with all entry and option headers
                  { Case(f, s, FALSE, m, "/", h, ho[1], ho[2], b) @@ [gun |-> "connect", cssl |-> z, cstatus |-> 200] :
@@ -308,6 +335,17 @@ TunnelRefusedOK(c, o, samples) ==
     /\ o.n = 0 /\ Len(o.connects) >= 1
     /\ Len(samples) = 1 /\ samples[1].proto = 0 /\ samples[1].net # 0
 
+\* ---- http2 gun ----
+IsHTTP2(c) == "gun" \in DOMAIN c /\ c.gun = "http2"
+OffersH2(c) == "h2" \in DOMAIN c /\ c.h2
+\* the http2 gun never speaks HTTP/1.1: a target without h2 gets nothing (negative control: it falls back)
+H2Mismatch(c) == IsHTTP2(c) /\ ~OffersH2(c) /\ Variant # "h2_fallback"
+\* the protocol version a delivered request arrives in
+WireProto(c) == IF IsHTTP2(c) /\ OffersH2(c) THEN "HTTP/2.0" ELSE "HTTP/1.1"
+ProtoOK(c, o) == o.proto = WireProto(c)
+\* nothing reaches any server, Shoot panics (the engine cancels the pool), at most one sample
+H2MismatchOK(c, o, samples, panic) == o.n = 0 /\ panic # "" /\ Len(samples) <= 1
+
 -----------------------------------------------------------------------------
 (* Acceptance of an observation o (what the recording target saw for case c):                       *)
 (*   o = [n (requests seen for this case), server, tls, method, uri, host, hdr <<[n, v]>>, body]   *)
@@ -393,6 +431,12 @@ TunnelTransparent == IsConnect(C) =>
                         /\ Wire(C) = Wire([k \in DOMAIN C \ {"gun", "cssl", "cstatus"} |-> C[k]])
                         /\ ConnectLine(C).uri = "GUNTARGET" /\ ConnectLine(C).host = ConnectLine(C).uri
                         /\ ConnectLine(C).tls = C.cssl
+\* the http2 gun changes the protocol version and nothing else; every other gun speaks HTTP/1.1 whatever the target offers
+H2Transparent == /\ IsHTTP2(C) => /\ C.ssl
+                                  /\ Wire(C) = Wire([k \in DOMAIN C \ {"gun", "h2"} |-> C[k]])
+                                  /\ (WireProto(C) = "HTTP/2.0") = OffersH2(C)
+                                  /\ H2Mismatch(C) = ~OffersH2(C)
+                 /\ ~IsHTTP2(C) => WireProto(C) = "HTTP/1.1" /\ ~H2Mismatch(C)
 \* a target given by name is named in Host (absent an ammo / option Host) and in the TLS handshake
 NamedTarget == ("tname" \in DOMAIN C /\ C.tname) =>
                   /\ (~C.host /\ OptHost(C) = "") => Wire(C).host = "TARGETHOST"
